@@ -53,3 +53,38 @@ fn strict_or(a: bool, b: bool) -> (r: bool) ensures r == (a || b) { a || b }
 fn strict_and(a: bool, b: bool) -> (r: bool) ensures r == (a && b) { a && b }
 // N6 helper: the unsafe promise of NonZeroUsize::new_unchecked becomes an obligation.
 const fn nz(x: usize) -> (r: NonZeroUsize) requires x != 0 ensures r@ == x { NonZeroUsize::new(x).unwrap() }
+
+// ---- assumed: constructors, anchors (owning_iovec) ----
+impl<'this> OwningIovec<'this> {
+    #[verifier::external_body]
+    fn new() -> (r: Self)
+        ensures r.bytes() == Seq::<u8>::empty(), r.pending() == Set::<int>::empty()
+    { unimplemented!() }
+    #[verifier::external_body]
+    fn push_anchor(&mut self, anchor: Anchor)
+        ensures final(self).bytes() == old(self).bytes(), final(self).pending() == old(self).pending()
+    { unimplemented!() }
+}
+#[verifier::external_body]
+struct Anchor { _p: u8 }
+#[verifier::external_body]
+struct ArenaHandle { _p: u8 }
+#[verifier::external_body]
+struct AnchoredSlice { _p: u8 }
+impl AnchoredSlice {
+    uninterp spec fn contents(&self) -> Seq<u8>;
+    // unsafe in the real crate: the slice is only valid while the anchor lives.  Assumed: it yields
+    // exactly the anchored bytes.  (Memory validity is C05, not claimed.)
+    #[verifier::external_body]
+    fn components<'a>(self) -> (r: (ArenaHandle, &'a [u8], Anchor))
+        ensures r.1@ == self.contents()
+    { unimplemented!() }
+    #[verifier::external_body]
+    fn slice(&self) -> (r: &[u8])
+        ensures r@ == self.contents()
+    { unimplemented!() }
+}
+impl Default for Backref {
+    #[verifier::external_body]
+    fn default() -> Self { unimplemented!() }
+}
